@@ -282,6 +282,10 @@ def respell(ctx, m, src, rng, Chem):
                 ctx.exclude('canonical-string-gap', {'smiles': src})
             elif tautomer_gap(m):
                 ctx.exclude('gap-hetero-arene-tautomer-fix', {'smiles': src})
+            elif kind == 'rdkit' and has_unsaturated_four_ring(m):
+                # RDKit writes unsaturated four-membered rings fused to arenes in lower case; the library does not count them as aromatic,
+                # so its Kekule form of that text may be another resonance form (the same gap as for the enumerated forms above)
+                ctx.exclude('gap-unsaturated-four-membered-ring', {'smiles': src})
             else:
                 ctx.violation('aromatic-spelling-aromatises-differently/%s' % kind, '%s via %s: %s vs %s' % (src, t, k, m), {'smiles': src, 'text': t})
 
